@@ -44,6 +44,19 @@ UNQUOTED = PRE + [
      '(__CPROVER_old(vx_buflen) == 0 && %s != \'\\r\' && %s != \'\\n\' && %s != %s && !(self->subfield_delimiter_ != 0 && %s == self->subfield_delimiter_) && %s == %s) ==> (vx_pushes == 0 && vx_buflen == 0 && self->state_ == csv_parse_state_quoted_string && %s == vx_off + 1 && *ec_p == 0)' % (C, C, C, D, C, C, Q, PO)),
     ('ensures', '[C18] the content is not trimmed unless a trim option is on', '(self->trim_leading_ || self->trim_trailing_) || vx_trims == 0'),
 ]
+# ---- start of a record (state expect_record): which character begins a record, and that the field delimiter - whatever character it is (other than the quote character) - is left for the field level
+RPRE = [('requires', 'self->input_ptr_ == vx_in + vx_off && vx_off < vx_n && vx_n <= 100000000 && self->more_ && *ec_p == 0 && self->column_ <= SIZE_MAX / 2 && self->line_ <= SIZE_MAX / 2 && vx_buflen == 0 && vx_pushes == 0 && vx_clears == 0 && vx_begin_records == 0 && vx_state_pushes == 0 && self->state_ == csv_parse_state_expect_record'),
+        ('assigns', '*ec_p, self->state_, self->more_, self->input_ptr_, self->column_, self->line_, vx_buflen, vx_pushes, vx_clears, vx_pushed, vx_begin_records, vx_state_pushes')]
+EXPECT_RECORD = RPRE + [
+    ('ensures', '[C18] the field delimiter at the start of a record - a comma, a semicolon, and equally a tab or a space when that is the delimiter in force - begins the record and is left for the field level, which makes the first field empty (F36: tab separated values)',
+     '(%s == %s && %s != \'\\n\' && %s != \'\\r\' && %s != %s) ==> (vx_begin_records == 1 && self->state_ == csv_parse_state_unquoted_string && %s == vx_off && vx_pushes == 0 && vx_buflen == 0 && *ec_p == 0)' % (C, D, C, C, D, Q, PO)),
+    ('ensures', '[C18] a space or a tab that is not the delimiter is content of the first field (kept, and the record begins) unless leading white space is trimmed (skipped)',
+     '((%s == \' \' || %s == \'\\t\') && %s != %s) ==> (%s == vx_off + 1 && (self->trim_leading_ ? (vx_begin_records == 0 && vx_pushes == 0 && self->state_ == csv_parse_state_expect_record) : (vx_begin_records == 1 && vx_pushes == 1 && vx_pushed == %s && self->state_ == csv_parse_state_unquoted_string)))' % (C, C, C, D, PO, C)),
+    ('ensures', '[C18] the quote character opens a quoted first field; any other character begins an unquoted first field and is left for the field level',
+     '(%s != \'\\n\' && %s != \'\\r\' && %s != \' \' && %s != \'\\t\') ==> (vx_begin_records == 1 && vx_pushes == 0 && (%s == %s ? (self->state_ == csv_parse_state_quoted_string && %s == vx_off + 1) : (self->state_ == csv_parse_state_unquoted_string && %s == vx_off)))' % (C, C, C, C, C, Q, PO, PO)),
+    ('ensures', '[C18] an empty line is skipped, or - when empty lines are not ignored - is a record without fields', '(%s == \'\\n\' || %s == \'\\r\') ==> (vx_pushes == 0 && (self->ignore_empty_lines_ ? vx_begin_records == 0 : (vx_begin_records == 1 && self->state_ == csv_parse_state_end_record && %s == vx_off)))' % (C, C, PO)),
+]
+R_RULES = RULES[:2] + [(r'buffer_\.push_back\(static_cast<CharT>\(curr_char\)\);', 'vx_buf_push(curr_char);', 1, 2), (r'buffer_\.clear\(\);', 'vx_buf_clear();', 0, 2), (r'begin_record\(local_visitor, ec\);', 'vx_begin_record(ec_p);', 3, 8), (r'push_state\(state_\);', 'vx_state_pushes++;', 0, 3)]
 SIG = r'void parse_some\(basic_json_visitor<CharT>& visitor, std::error_code& ec\)'
 SPECS = [
     EnumSpec('csv_parse_state', P), EnumSpec('csv_errc', 'include/jsoncons_ext/csv/csv_error.hpp'),
@@ -54,7 +67,11 @@ SPECS = [
              slice_from=r'case csv_parse_state::unquoted_string:\s*\{\s*switch \(curr_char\)', slice_to=r'case csv_parse_state::expect_record:',
              prologue='char curr_char = *input_ptr_; switch (state_) {', epilogue='default: break; }'),
 ]
+SPECS.append(FuncSpec('expect_record', P, SIG, count=1, csig='void expect_record(struct csv_parser* self, int* ec_p)', contract=EXPECT_RECORD, rules=R_RULES, aliases=dict(AL, line_='(self->line_)', ignore_empty_lines_='(self->ignore_empty_lines_)'),
+             slice_from=r'case csv_parse_state::expect_record:\s*\{\s*switch \(curr_char\)', slice_to=r'case csv_parse_state::end_record:',
+             prologue='char curr_char = *input_ptr_; switch (state_) {', epilogue='default: break; }'))
 HARNESSES = [
+    Harness('expect_record', 'h_expect_record', enforce='expect_record', method='LF', props=['C18', 'C03']),
     Harness('quoted_states', 'h_quoted_states', enforce='quoted_states', method='LF', props=['C18', 'C03']),
     Harness('unquoted_string', 'h_unquoted_string', enforce='unquoted_string', method='LF', props=['C18', 'C03']),
 ]
